@@ -1756,6 +1756,63 @@ impl Prop for C25 {
                     }
                 }
             }
+            // reads aimed at the rows that cross or touch a mini-block chunk boundary (trailer / preamble logic)
+            let mut edge_rows: Vec<u64> = vec![];
+            for (k, (path, _)) in leaves(&fs.top).iter().enumerate() {
+                let mut at = 0usize;
+                for (p, nrows) in w.pages[k].iter().enumerate() {
+                    if let Some((levels, _)) = &w.mb_pages[k][p] {
+                        if levels.len() > 1 {
+                            let a = &w.cols[path[0]];
+                            let mut bounds: Vec<u64> = vec![];
+                            let mut acc = 0u64;
+                            for l in &levels[..levels.len() - 1] {
+                                acc += *l;
+                                bounds.push(acc);
+                            }
+                            let mut lv = 0u64;
+                            let mut bi = 0usize;
+                            for i in at..at + *nrows as usize {
+                                let k2 = row_levels(a.as_ref(), i, &path[1..]).0 as u64;
+                                while bi < bounds.len() && bounds[bi] <= lv {
+                                    bi += 1;
+                                }
+                                // the row owns levels lv .. lv + k2: a boundary inside it or right behind it
+                                if bi < bounds.len() && bounds[bi] <= lv + k2 {
+                                    edge_rows.push(i as u64);
+                                    if i + 1 < fs.rows {
+                                        edge_rows.push(i as u64 + 1);
+                                    }
+                                }
+                                lv += k2;
+                            }
+                        }
+                    }
+                    at += *nrows as usize;
+                }
+            }
+            edge_rows.sort();
+            edge_rows.dedup();
+            if !edge_rows.is_empty() {
+                let pick: Vec<u64> = if edge_rows.len() > 16 {
+                    let st = rng.usize(edge_rows.len() - 16);
+                    edge_rows[st..st + 16].to_vec()
+                } else {
+                    edge_rows.clone()
+                };
+                let all: Vec<u64> = (0..nleaves as u64).collect();
+                lines.push(format!("read indices {} bs={} proj={}", show_nat_list(pick.iter().copied()), rng.range(1, 5), show_nat_list(all.iter().copied())));
+                let rs: Vec<(u64, u64)> = pick.iter().step_by(2).map(|r| (r.saturating_sub(rng.below(3)), *r + 1)).collect();
+                let mut rs2: Vec<(u64, u64)> = vec![];
+                for (a, b) in rs {
+                    let a = rs2.last().map(|l: &(u64, u64)| a.max(l.1)).unwrap_or(a);
+                    if a < b {
+                        rs2.push((a, b));
+                    }
+                }
+                lines.push(format!("read ranges {} bs={} proj={}", show_ranges(&rs2), rng.range(1, 7), show_nat_list(all.iter().copied())));
+                lines.push(format!("read range {} {} bs=3 proj={}", pick[0], pick[pick.len() - 1] + 1, show_nat_list(all.iter().copied())));
+            }
             // the repetition index the writer stored for (up to three) mini-block pages
             let mut probes = 0;
             for (k, (path, _)) in leaves(&fs.top).iter().enumerate() {
